@@ -46,6 +46,100 @@ CHECKS = {
         "without sd_hat, NaN/inf data; histories containing an update that raised (sd_hat=0) are outside cusum_spec but the raise is modelled and checked.",
    technique="Lean 4 proof (invariant over all histories, refinement to max-suffix-sum / textbook PH statistics, epoch simulation) + differential correspondence + independent rational spec monitor",
    ref="§7 C04"),
+ "C03": dict(
+   text="Lean 4 theorems over all histories and configurations (subwindow_size_thresh >= 1): for every ordered field ADWIN's window is exactly the last W "
+        "inputs, the bucket rows partition it into chunks of size 2^row with exact totals / sums of squared deviations, and mean()/variance() are the mean / "
+        "population variance of those inputs; for every carrier incl. the executed Float model: W +1 per update, shrinks iff drift, >= 1; drift iff scheduled "
+        "and some admissible bucket-boundary split exceeds the epsilon-cut; oldest buckets dropped until none does; recs = [total-W, total-1], cleared next "
+        "update; ADWINAccuracy = ADWIN on indicators with its own parameters; over R the eps-cut is antitone in delta. Tied to adwin.py / adwin_accuracy.py by "
+        "step-wise correspondence plus a model-independent exactness check against the raw stream.",
+   note="Trusted: Lean kernel, the hand-written model, the bounded correspondence (exhaustive {0,1,16}^7/9 + dyadic level-shift streams <= 400/4000, menus of "
+        "DESIGN §7). Field theorems do not cover Float rounding; numpy log vs libm differ by <= 1 ulp, ties below 1e-9 truncate. Excluded: max_buckets=0, "
+        "new_sample_thresh=0, subwindow_size_thresh=0, delta=0, NaN/inf data.",
+   technique="Lean 4 proof (invariant by induction over the history on (n,S,Q) triples, field identities, fuelled cut loop shown sufficient) + differential correspondence + raw-stream exactness check",
+   ref="§7 C03"),
+ "C05": dict(
+   text="Lean 4 theorems for every error history, configuration and epoch: epoch structure and counters, retraining_recs semantics (first alarm index of the "
+        "epoch / start of the uninterrupted run for STEPD, drift index, cleared next update), decision tables and guards of DDM / EDDM / STEPD for every carrier "
+        "incl. the executed Float model; over ordered fields DDM rate = errors/n and the stored minimum pair minimises p+s over tested positions, EDDM mean "
+        "distance telescopes, STEPD counters are the correct counts inside/before the last window. Tied to the code by an exhaustive correspondence (all "
+        "2^10 / 2^13 outcome sequences x 92 boundary-seeking configurations, every decision compared) plus long multi-drift sequences.",
+   note="Trusted: Lean kernel; models tied by the bounded correspondence; Float rounding outside the theorems; scipy.stats.norm.cdf monotone (p < alpha modelled "
+        "as z > z_alpha, found by bisection on the code's own expression); window_size=0 and alpha outside [0,1] excluded.",
+   technique="Lean 4 proof (snoc induction, generic trace-semantics lemmas, field algebra) + exhaustive model/implementation correspondence + declarative clauses on implementation traces",
+   ref="§7 C05"),
+ "C06": dict(
+   text="Lean 4 theorems: for every carrier (incl. Float) the decision (off schedule: None, nothing cached; on schedule: drift / warning iff a tracked rate's "
+        "statistic is outside the detect / warning bounds cached for its (rounded rate, denominator)), first-wins cache surviving resets, untracked rates never "
+        "influence state/recs/cache (simulation relation), confusion matrix = epoch counts + 1 per cell and the four rates, recs and lifecycle; over ordered "
+        "fields: a rate changes exactly on the samples of its row/column, the statistic is the exponentially weighted average over exactly those samples "
+        "(closed form), np.percentile(linear) model. Tied to lfr.py by exhaustive correspondence over all {0,1}^2 sequences of length <= 6/7 plus random "
+        "histories, with the Monte-Carlo draws captured from np.random.binomial.",
+   note="Trusted: Lean kernel; numpy RNG (Monte-Carlo quality of the bounds only covered by a statistical test, labelled a test); Float rounding; excluded: "
+        "parallelize=True, repeated/unknown rate names, subsample=0, num_mc=0, non-0/1 labels. Percentile monotonicity in the level is not proved.",
+   technique="Lean 4 proof (loop invariants, simulation relation, field algebra) + differential correspondence with captured draws + declarative spec and twin runs on the real class",
+   ref="§7 C06"),
+ "C10": dict(
+   text="Lean 4 theorems: D is the sorted duplicate-free union and v1/v2 are exact membership indicators for any sizes and duplicates (any linear order); the "
+        "adjacency-validation predicate is exactly the k-NN relation with self-inclusion; the NNPS distance lies in [0,1], is symmetric, is 0 on equal sets "
+        "and has no vanishing denominator (ordered fields); NNDVI reports drift iff the distance exceeds mean + z*(population std) of the sampling_times "
+        "re-assignment distances, the reference is replaced iff drift, counters over whole histories (law-free). Tied to the code by a seeded correspondence "
+        "plus direct property clauses on the implementation with alpha / strictness boundary probes.",
+   note="sklearn's k-NN search, np.random.permutation and scipy norm.ppf(1-alpha) are inputs validated or captured per case; Float rounding not covered "
+        "(tolerance 1e-9, thin-margin rule); membership theorems need a linear order.",
+   technique="Lean 4 proof (refinement of the np.unique model to a declarative spec, ordered-field algebra, law-free lifecycle induction) + differential correspondence with validated oracles",
+   ref="§7 C10"),
+ "C11": dict(
+   text="Lean 4 theorems for all histories, oracle inputs and configurations: explicit state during the first 2w samples and the 1+w samples after a drift "
+        "(silent, no score, since restarts at 0, reference := former test window); a score is computed exactly on sliding updates with (n-1)%step=0; drift "
+        "iff the embedded Page-Hinkley (threshold pyRound(.01w), burn-in 0) alarms on the max score; online_scaling never read by the control flow; "
+        "per-component supports shared by reference and test histograms; over ordered fields: histogram = relative bin counts, intersection of identical "
+        "windows = 0, score in [0,1]; for every carrier the clamped intersection score is never negative. Tied to pca_cd.py by a per-update correspondence "
+        "(both metrics, scaling on/off, repeated-window streams, several drifts) and a 1904-configuration parameter sweep.",
+   note="Trusted oracles: sklearn StandardScaler / PCA / KernelDensity and scipy jensenshannon, recomputed by the harness from the raw stream with public API "
+        "(num_pcs, projections, KDE-JS values are model inputs). Float rounding / numpy summation order not covered (rel 1e-9). Excluded: window_size=0, "
+        "round(sample_period*w)<=0, constant components, NaN/inf.",
+   technique="Lean 4 proof (invariants and induction over the update list, explicit epoch descriptions, ordered-field algebra) + differential correspondence with model-directed oracle scheduling + clauses on implementation traces",
+   ref="§7 C11"),
+ "C12": dict(
+   text="Lean 4 theorems for every list of abstract member machines, all selectors, all four elections and all update / reset / set_reference histories: "
+        "each member's state is that machine run alone on the calls mapped through its selector (on exactly the delivered calls when some member raises); "
+        "drift_states and retraining_recs are the members' values in insertion order (members without recs omitted); drift_state is the election applied to "
+        "the independently run members; the election state is the fold over one ballot per update and survives reset; total counts the updates that returned "
+        "normally, since restarts only on reset. Tied to ensemble.py by a differential run: real ensembles of 11 member classes against independent "
+        "deep-copied twins plus the Lean model, call by call.",
+   note="Trusted: Lean kernel; the hand-written model of ensemble.py (members abstract); bounded correspondence (30/300 ensembles, 100-600 calls, seed schedule "
+        "applied through a seeding subclass of stochastic members); a member's state means a deep __dict__ snapshot; election semantics are C13's.",
+   technique="Lean 4 proof (induction over the member list and the op list, delivered-calls simulation) + twin-run differential correspondence with malformed-call injection",
+   ref="§7 C12"),
+ "C16": dict(
+   text="Lean 4 theorems that any detector step fed only the agreement bit / confusion cell / no extra argument yields identical complete-state traces under "
+        "any label encoding with equal agreement (incl. injective relabelling, >= 3 classes) and any unused-argument values, instantiated for the DDM / EDDM / "
+        "STEPD models; twin runs on the real DDM, EDDM, STEPD, ADWINAccuracy (19 encodings) and LinearFourRates (8 encodings) and on 14 detectors with junk "
+        "in every documented-unused argument, all public observables compared after every call.",
+   note="The theorems are structural (by construction of the step functions); that the Python classes have this shape is established by the twin runs. "
+        "NaN / None labels and cross-type pairs excluded.",
+   technique="Lean 4 proof (congruence over traces) + twin-run relation on the real classes with per-call re-seeding",
+   ref="§7 C16"),
+ "C19": dict(
+   text="Lean 4 theorems on a model of MD3: exact refusal rules and guard order, refused calls leave the whole state unchanged, the decision happens at exactly "
+        "the N-th well-formed label (drift iff sens*accStd < acc - correct/N), the new reference is adopted, waiting cleared, md restarts at the new reference "
+        "md; strict warning rule; counters and lifetime of 'drift'; over fields lambda=(N-1)/N and the closed form of the margin density. Tied to md3.py by a "
+        "differential correspondence (exhaustive over bounded interleavings of legal and illegal calls, random beyond) plus the protocol clauses run directly "
+        "on the implementation.",
+   note="Classifier, margin function and k-fold reference statistics are oracle inputs (recomputed with public sklearn); Float rounding not covered; "
+        "exhaustive to length 5-7 unreduced, 8/10 modulo the verified-unchanged-refusal reduction; excluded: k larger than the reference or oracle length.",
+   technique="Lean 4 proof (invariant, induction over call histories, closed-form algebra) + model/implementation differential testing with exact-boundary dyadic configurations",
+   ref="§7 C19"),
+ "C20": dict(
+   text="Lean 4 model of the eight injectors (draws as validated inputs) with 39+ theorems: frame conditions (shape, labels, rows outside the window and "
+        "non-targeted columns unchanged) for every carrier, swap / label-swap involutions, cell-level specs of join / shift / random walk, resampled rows come "
+        "from the window, sampling-vector algebra over ordered fields (non-negative, sums to one, class masses, leftover redistribution), cover blocks. Tied "
+        "to the code by correspondence on exhaustive windows n <= 8 x columns x containers with RNG taps, and direct frame clauses on the implementation.",
+   note="Arithmetic theorems are about ordered fields; Float is tied by correspondence only. That drawn frequencies follow the weights is numpy's RNG (chi-square "
+        "test in thorough, a test). dtype is not modelled; known finding: integer-dtype truncation in FeatureShift / BrownianNoise.",
+   technique="Lean 4 proof (structural induction over tables, field algebra) + differential correspondence with RNG taps + frame-condition clauses on the implementation",
+   ref="§7 C20"),
  "C13": dict(
    text="Lean 4 theorems for all n and all parameters: majority/minimum/ordered verdict iff count rule, range, monotonicity; "
         "ConfirmedElection refines the documented per-member voter automaton, counters <= wait_time. Tied to election.py by an "
